@@ -106,7 +106,14 @@ def code_objects(mod) -> list:
     return out
 
 
-def check_code(label: str, code, acc: Acc, source=None):
+def _decoy(a, b):
+    for i in a:
+        if i is None:
+            return b
+    return a
+
+
+def check_code(label: str, code, acc: Acc, source=None, fn=None):
     from numba_scfg.core.datastructures.byte_flow import ByteFlow
     why = in_domain(code)
     if why is not None:
@@ -157,6 +164,27 @@ def check_code(label: str, code, acc: Acc, source=None):
     except Exception as e:  # noqa: BLE001
         et, site = exc_fingerprint(e)
         report(f"rebuild-raises/{et}", f"second ByteFlow.from_bytecode raised {et} at {site}", site=f"{PYTAG} {site}")
+    # input forms: the same function handed in as function object, bound method, and after it was made to carry the
+    # metadata of ANOTHER function (functools.update_wrapper sets __wrapped__, __name__, ... but not __code__): the graph must
+    # still be that of the function's own bytecode
+    if fn is not None:
+        import functools
+        forms = [("function", lambda: fn), ("bound-method", lambda: types.MethodType(fn, object())),
+                 ("function-with-__wrapped__", lambda: functools.update_wrapper(fn, _decoy))]
+        for form, make in forms:
+            acc.counters["input_forms_checked"] += 1
+            try:
+                obj = make()
+                other = ByteFlow.from_bytecode(obj)
+            except Exception as e:  # noqa: BLE001
+                et, site = exc_fingerprint(e)
+                report(f"input-form-raises/{form}/{et}", f"ByteFlow.from_bytecode({form}) raised {et} at {site}", site=f"{PYTAG} {site}")
+                continue
+            got = {n: (type(b).__name__, getattr(b, "begin", None), getattr(b, "end", None), tuple(b._jump_targets))
+                   for n, b in other.scfg.graph.items()}
+            if got != first:
+                report(f"input-form-differs/{form}", f"the graph built from the {form} form differs from the graph built from the "
+                                                     f"function's own code object", site=f"{PYTAG} {form}")
     acc.states += len(flow.scfg.graph)
     acc.transitions += sum(len(b._jump_targets) for b in flow.scfg.graph.values())
     if len(acc.samples) < 3 and len(flow.scfg.graph) >= 4 and source is not None:
@@ -175,7 +203,7 @@ def _work(args):
             except SyntaxError:
                 acc.counters["snippet_syntax_error_on_this_python"] += 1
                 continue
-            check_code(label, ns["f"].__code__, acc, source=src)
+            check_code(label, ns["f"].__code__, acc, source=src, fn=ns["f"])
     else:
         for modname in payload:
             try:
@@ -272,7 +300,7 @@ def replay(case) -> Acc:
     if "source" in case:
         ns = {}
         exec(compile(case["source"], "<replay>", "exec"), ns)
-        check_code(case["label"], ns["f"].__code__, acc, source=case["source"])
+        check_code(case["label"], ns["f"].__code__, acc, source=case["source"], fn=ns["f"])
     else:
         modname, _, path = case["label"].partition(":")
         mod = importlib.import_module(modname)
